@@ -53,10 +53,6 @@ def advertised (c : Config) : Option Params :=
            bidiRemote := c.initialStreamReceiveWindow, uni := c.initialStreamReceiveWindow }
   else none
 
-/-- `Conn.newFlowController(id)`: (receiveWindow, maxReceiveWindow) -/
-def newFlowControllerReceiveWindow (c : Config) : Option (Int × Int) :=
-  if newFCReceiveWindowFromConfig then some (c.initialStreamReceiveWindow, c.maxStreamReceiveWindow) else none
-
 /-! ### the RFC's assignment (RFC 9000 §2.1 stream ids, §18.2 parameter definitions) -/
 
 /-- The limit that applies to data **we send** on stream `id`, from the parameters the peer sent:
@@ -81,27 +77,82 @@ def rfcReceiveLimit (weAreClient : Bool) (ours : Params) (id : Nat) : Int :=
   else if (openedByClient ∧ weAreClient = true) ∨ (¬ openedByClient ∧ weAreClient = false) then ours.bidiLocal
   else ours.bidiRemote
 
-/-! ### a spec-driven client: the Config is raised to cover what the QUICSpec advertises
-(u_connection.go `configCoveringAdvertised`, applied by `newUClientConnection` before `preSetup`) -/
+/-! ### a spec-driven client: what the QUICSpec advertises is authoritative
+(u_connection.go `configCoveringAdvertised` + `uAdvertisedStreamData`, applied by
+`newUClientConnection` before `preSetup`; connection.go `Conn.newFlowController`) -/
 
 def pick (isMax : Bool) (a b : Int) : Int := if isMax then max a b else min a b
 
-/-- the four receive-window fields of `configCoveringAdvertised(conf, p)`; which of `max` / `min`
-    the Go code applies is a regenerated fact -/
-def coveringConfig (c : Config) (adv : Params) : Config :=
-  let ic := pick coverConnIsMax c.initialConnectionReceiveWindow adv.maxData
-  let is := pick coverStreamOuterIsMax c.initialStreamReceiveWindow
-              (pick coverStreamInnerIsMax (pick coverStreamInnerIsMax adv.bidiLocal adv.bidiRemote) adv.uni)
+/-- The shape of the spec-driven window setup, as extracted from the Go source.  The model is a
+    function of the shape so that the shape of an earlier revision can be instantiated as well
+    (`Shape.old`, used by the kernel-checked witness that it stalls). -/
+structure Shape where
+  /-- `c.InitialConnectionReceiveWindow = …`: 0 the advertised `initial_max_data`, 1 `max(conf, adv)`, 2 `min` -/
+  connMode : Nat
+  streamOuterIsMax : Bool
+  streamInnerIsMax : Bool
+  maxWindowsFollow : Bool
+  applied : Bool
+  /-- `newFlowController` starts the stream with `uAdvertisedStreamData.forStream(id, perspective)` -/
+  specOverride : Bool
+  uniField : Nat
+  ownBidiField : Nat
+  peerBidiField : Nat
+deriving Repr, DecidableEq
+
+/-- the shape of the checked-out source (regenerated facts) -/
+def Shape.current : Shape :=
+  { connMode := coverConnMode, streamOuterIsMax := coverStreamOuterIsMax, streamInnerIsMax := coverStreamInnerIsMax,
+    maxWindowsFollow := coverMaxWindowsFollow, applied := coverAppliedInUClient, specOverride := newFCSpecOverride,
+    uniField := advForStreamUniField, ownBidiField := advForStreamOwnBidiField, peerBidiField := advForStreamPeerBidiField }
+
+/-- the shape before /repo c32d004: one stream window (the largest advertised value, or the Config's)
+    for every kind of stream, and `max(Config, advertised)` as connection window -/
+def Shape.old : Shape :=
+  { connMode := 1, streamOuterIsMax := true, streamInnerIsMax := true, maxWindowsFollow := true, applied := true,
+    specOverride := false, uniField := 9, ownBidiField := 9, peerBidiField := 9 }
+
+/-- the four receive-window fields of `configCoveringAdvertised(conf, p)` -/
+def coveringConfigS (sh : Shape) (c : Config) (adv : Params) : Config :=
+  let ic := match sh.connMode with
+    | 0 => adv.maxData
+    | 1 => max c.initialConnectionReceiveWindow adv.maxData
+    | _ => min c.initialConnectionReceiveWindow adv.maxData
+  let is := pick sh.streamOuterIsMax c.initialStreamReceiveWindow
+              (pick sh.streamInnerIsMax (pick sh.streamInnerIsMax adv.bidiLocal adv.bidiRemote) adv.uni)
   { initialConnectionReceiveWindow := ic,
-    maxConnectionReceiveWindow := if coverMaxWindowsFollow then max c.maxConnectionReceiveWindow ic else c.maxConnectionReceiveWindow,
+    maxConnectionReceiveWindow := if sh.maxWindowsFollow then max c.maxConnectionReceiveWindow ic else c.maxConnectionReceiveWindow,
     initialStreamReceiveWindow := is,
-    maxStreamReceiveWindow := if coverMaxWindowsFollow then max c.maxStreamReceiveWindow is else c.maxStreamReceiveWindow }
+    maxStreamReceiveWindow := if sh.maxWindowsFollow then max c.maxStreamReceiveWindow is else c.maxStreamReceiveWindow }
 
 /-- the configuration a client's flow controllers are built from: a spec-driven client
-    (`spec = some advertised`) covers the advertised parameters, a plain client uses the Config -/
-def enforcedConfig (c : Config) (spec : Option Params) : Config :=
+    (`spec = some advertised`) runs `configCoveringAdvertised`, a plain client uses the Config -/
+def enforcedConfigS (sh : Shape) (c : Config) (spec : Option Params) : Config :=
   match spec with
-  | some adv => if coverAppliedInUClient then coveringConfig c adv else c
+  | some adv => if sh.applied then coveringConfigS sh c adv else c
   | none => c
+
+/-- `uAdvertisedStreamData.forStream(id, perspective)` -/
+def forStreamS (sh : Shape) (weAreClient : Bool) (adv : Params) (id : Nat) : Int :=
+  if isUni id then adv.field sh.uniField
+  else if byClient id == weAreClient then adv.field sh.ownBidiField else adv.field sh.peerBidiField
+
+/-- `Conn.newFlowController(id)`: (receiveWindow, maxReceiveWindow) handed to `NewStreamFlowController`;
+    `c` is the connection's (enforced) configuration, `spec` what `uAdvertisedStreamData` holds
+    (`none`: nil, i.e. not a spec-driven client).  `none` if the Go source no longer passes the
+    Config's windows. -/
+def newFlowControllerReceiveWindowS (sh : Shape) (c : Config) (spec : Option Params) (weAreClient : Bool) (id : Nat) :
+    Option (Int × Int) :=
+  if !newFCReceiveWindowFromConfig then none else
+  match spec with
+  | some adv =>
+    if sh.specOverride then
+      some (forStreamS sh weAreClient adv id, max c.maxStreamReceiveWindow (forStreamS sh weAreClient adv id))
+    else some (c.initialStreamReceiveWindow, c.maxStreamReceiveWindow)
+  | none => some (c.initialStreamReceiveWindow, c.maxStreamReceiveWindow)
+
+def coveringConfig := coveringConfigS Shape.current
+def enforcedConfig := enforcedConfigS Shape.current
+def newFlowControllerReceiveWindow := newFlowControllerReceiveWindowS Shape.current
 
 end Uquic.Model.FlowInit
